@@ -14,6 +14,8 @@ def classify(f):
         return dict(call=call, symptom='order'), f'{call}: per-qudit operation order differs from the plain list-of-cycles reference'
     if k == 'structure_only_changed_program':
         return dict(call=call, symptom='structure-only-changed-program'), f'{call} is structure-only but changed the unfolded program'
+    if k == 'iteration_raised':
+        return dict(call=call, symptom='iteration-raised'), f'after {call} the circuit can no longer be iterated (program order unreadable): ' + str(f.get('detail'))
     if k == 'oracle_raised':
         return dict(call=call, symptom='oracle-raised'), 'reference oracle raised: ' + str(f.get('detail'))
     return None
